@@ -104,7 +104,7 @@ class Scenarios:
     OVERRIDES = {"KeyConvOf": "MCKeyConvOf", "ConvOf": "MCConvOf", "SecConvOf": "MCSecConvOf",
                  "ResLines": "MCResLines", "Resolve": "MCResolve", "Package": "MCPackage",
                  "Schemas": "MCSchemas", "ScnSchema": "MCScnSchema", "ScnMain": "MCScnMain", "ScnOpts": "MCScnOpts",
-                 "ScnTwin": "MCScnTwin", "ScnCulprit": "MCScnCulprit"}
+                 "ScnTwin": "MCScnTwin", "ScnCulprit": "MCScnCulprit", "ExtSpace": "MCExtSpace"}
 
     def run_spec(self, chk, invariants=(), properties=(), workers=6, timeout=3000, extra_values=()):
         """Run TLC over all scenarios; returns the emitted record per scenario."""
